@@ -43,7 +43,7 @@ def Val.getField (name : String) : Val → Option Val
   | .field n v rest => if n = name then some v else Val.getField name rest
   | _ => Option.none
 
-inductive BinOp where | add | sub | mul
+inductive BinOp where | add | sub | mul | pow
   deriving Repr, DecidableEq
 inductive CmpOp where | lt | le | gt | ge | eq | ne
   deriving Repr, DecidableEq
@@ -155,6 +155,7 @@ def evalBin (op : BinOp) (a b : Val) : M Val :=
   | .mul, .int x, .int y => .ok (.int (x * y))
   | .add, .td x, .td y => .ok (.td (x + y))
   | .sub, .td x, .td y => .ok (.td (x - y))
+  | .pow, .int x, .int y => if 0 ≤ y then .ok (.int (x ^ y.toNat)) else unsupported "negative exponent"
   | .mul, .list sp, .int n =>
     match sp.toList? with
     | some l => .ok (.list (Val.ofList ((List.replicate n.toNat l).flatten)))
